@@ -28,8 +28,10 @@ Recip5      == Arr(<<B0, EmptyMap, Nil, EmptyArr, B0>>)
 SigDup      == Arr(<<B0, MapDup, B0>>)
 SigProtDup  == Arr(<<ProtDup, EmptyMap, B0>>)
 
-P1 == {B0, ProtOK, ProtBad, ProtTrail, ProtNoMap, Nat2I(1)} \cup (IF Wide THEN {ProtDup, Nil, EmptyMap, Ta} ELSE {})
-P2 == {EmptyMap, MapOK, MapBad, MapDup, Nil, B0} \cup (IF Wide THEN {EmptyArr, Nat2I(1), Ta} ELSE {})
+ProtIv == Bs(<<161, 5, 65, 1>>)            \* {5: h'01'}
+MapPiv == Map(<< <<Nat2I(6), Bs(<<2>>)>> >>)  \* {6: h'02'}: valid on its own, also next to an IV in the OTHER header
+P1 == {B0, ProtOK, ProtIv, ProtBad, ProtTrail, ProtNoMap, Nat2I(1)} \cup (IF Wide THEN {ProtDup, Nil, EmptyMap, Ta} ELSE {})
+P2 == {EmptyMap, MapOK, MapPiv, MapBad, MapDup, Nil, B0} \cup (IF Wide THEN {EmptyArr, Nat2I(1), Ta} ELSE {})
 P3 == {B1, B0, Nil, Nat2I(1), Tt, EmptyArr} \cup (IF Wide THEN {EmptyMap, Bool(TRUE), F15} ELSE {})
 P4 == {B1, Nil, Nat2I(1), EmptyArr, Arr(<<SigMin>>), Arr(<<SigAlg, SigBadSlot>>), Arr(<<RecipMin>>), Arr(<<RecipNest3>>), Arr(<<RecipBadIn3>>)}
       \cup (IF Wide THEN {Arr(<<SigMin, SigAlg>>), Arr(<<SigDup>>), Arr(<<SigProtDup>>), Arr(<<RecipEmptyL>>), Arr(<<Recip5>>),
